@@ -329,6 +329,13 @@ func runCase(c *core.Case) {
 		srv.Quiesce(refclient.Watchdog)
 		adm.Drain()
 		obs.Drain()
+		if flavour == "named" && r.Chance(1, 4) {
+			// the target has stopped reading (a client that wants to sit out the kick): whatever the server still writes
+			// to it - the ban notice, other users' notifications - never completes; the connection must be closed all the same
+			tgt.Conn.SetBackpressure(1)
+			desc += "/target-not-reading"
+			c.Count("targets_that_stopped_reading", 1)
+		}
 		fs := []rc.Field{rc.F(103, rc.U16(int(tid)))}
 		enc := rc.U16
 		if r.Chance(1, 4) {
